@@ -491,7 +491,7 @@ def r4_result(ctx, chk, rule="C07.4"):
         return
     chk.ok(rule, f.where(ret), "result is sorted ascending: %s" % sorted_by)
     # filter form
-    if isinstance(compr, ast.ListComp) and len(compr.generators) == 1:
+    if isinstance(compr, (ast.ListComp, ast.GeneratorExp, ast.SetComp)) and len(compr.generators) == 1:
         gen = compr.generators[0]
         x = gen.target.id if isinstance(gen.target, ast.Name) else None
         srcname = gen.iter.id if isinstance(gen.iter, ast.Name) else None
